@@ -71,12 +71,13 @@ EXTRA_COVERAGE = {'backends': ['make', 'ninja (vf/ref/refninja.py)'],
 KIND_CLASS = {'mod_pch': 'pch-header-modified', 'del_header': 'header-gone', 'rename_header': 'header-gone',
               'move_header': 'header-gone', 'mod_header': 'header-modified',
               'add_header': 'header-added', 'uninclude': 'include-removed',
-              'rm_header': 'unused-header-deleted'}
+              'rm_header': 'unused-header-deleted',
+              'unbreak_tu': 'header-gone-after-failed-build'}
 
 
 def floors(tier):
     q = tier == 'quick'
-    return {'builds:after-edit': 50 if q else 900,
+    return {'builds:after-edit': 50 if q else 900, 'builds:expected-to-fail': 8 if q else 100,
             'builds:noop': 8 if q else 120,
             'builds:clean+rebuild': 8 if q else 120,
             'obligations:must-recompile': 200 if q else 3000,
@@ -853,6 +854,8 @@ def run_history(case, st, hist, res, count=True, keep_going=False):
         what2 = what + ('/' + kw['reason'] if kw.get('reason') else '')
         kc = KIND_CLASS.get(kind, kind)
         trig = 'chars:' + show(chars)
+        if kind == 'unbreak_tu':
+            trig = 'after-a-build-that-failed'
         # names that end up in object paths (for predicates on the witness)
         cs = ctx['state']
         wit['object_path_names'] = ' | '.join(
@@ -1020,6 +1023,14 @@ def run_history(case, st, hist, res, count=True, keep_going=False):
             inner_edit = kind == 'mod_header' and op['h'] in g.only_through_pch(cur)
             stale_dep_gone = kind in ('del_header', 'rename_header', 'move_header')
             try:
+                if kind == 'break_tu':
+                    # this build has to fail (the TU does not compile); nothing else is asked
+                    rc, out, recs = do_build()
+                    ev('builds:expected-to-fail')
+                    if rc == 0:
+                        fail(idx, kind, 'broken-source-built', '', output=out[-800:])
+                    cur, rendered = nxt, new_render
+                    continue
                 if kind == 'clean':
                     rc, out, recs = do_build(['clean'])
                     if rc != 0:
@@ -1073,6 +1084,10 @@ def run_history(case, st, hist, res, count=True, keep_going=False):
                     res.classes.add('%s/%s/%s' % (backend, compiler, kind))
                     if chars:
                         res.classes.add('chars:' + show(chars))
+                if rc != 0 and kind == 'unbreak_tu':
+                    # (plainly named header: no probing of names)
+                    fail(idx, kind, 'build-failed', '', reason=fail_reason(out),
+                         output=out[-1500:], op=op, compiled=ob.compiled, no_probe=True)
                 if rc != 0:
                     fail(idx, kind, 'build-failed', edited_for_class, reason=fail_reason(out),
                          output=out[-1500:], op=op, compiled=ob.compiled,
